@@ -37,6 +37,61 @@ fn split_request(line: &str) -> (&str, &str, &str) {
     (verb, head, payload)
 }
 
+/// Builds `ConnectOptions` from the facade's textual form (`ka=.. cid=x.. user=x.. ...`).
+pub fn connect_options_from_text(text: &str) -> Result<crate::client::config::ConnectOptions, String> {
+    let line = format!("c {}", text);
+    let (_, kv) = text::split_kv(&line);
+    engine::connect_options_of(&kv)
+}
+
+/// Prints every field of `ConnectOptions` in the facade's textual form (as the CONNECT it yields on a first connection).
+pub fn connect_options_text(options: &crate::client::config::ConnectOptions) -> String {
+    let rejoin = match options.rejoin_session_policy {
+        crate::client::config::RejoinSessionPolicy::Always => "always",
+        crate::client::config::RejoinSessionPolicy::Never => "never",
+        _ => "post",
+    };
+    let ka = match options.keep_alive_interval_seconds { Some(v) => v.to_string(), None => "none".to_string() };
+    let packet = crate::mqtt::MqttPacket::Connect(options.to_connect_packet(false));
+    format!("rejoin={} kaopt={} {}", rejoin, ka, text::print_packet(&packet))
+}
+
+/// Builds `MqttClientOptions` from text: `v=5|311 policy=.. drain=none|one retries=n pingto=ms ctimeout=ms`.
+pub fn client_options_from_text(text: &str) -> Result<crate::client::config::MqttClientOptions, String> {
+    use crate::client::config::*;
+    let line = format!("c {}", text);
+    let (_, kv) = text::split_kv(&line);
+    let mut builder = MqttClientOptions::builder();
+    if let Some(p) = text::get(&kv, "policy") { builder.with_offline_queue_policy(codec::policy_of(p)?); }
+    if text::get(&kv, "v").is_some() {
+        builder.with_protocol_mode(match codec::version_of(&kv)? { crate::mqtt::ProtocolVersion::Mqtt5 => ProtocolMode::Mqtt5, crate::mqtt::ProtocolVersion::Mqtt311 => ProtocolMode::Mqtt311 });
+    }
+    match text::get(&kv, "drain") {
+        Some("one") => { builder.with_post_reconnect_queue_drain_policy(PostReconnectQueueDrainPolicy::OneAtATime); }
+        Some("none") => { builder.with_post_reconnect_queue_drain_policy(PostReconnectQueueDrainPolicy::None); }
+        _ => {}
+    }
+    if let Some(v) = text::get_num::<u32>(&kv, "retries")? { builder.with_max_interrupted_retries(v); }
+    if let Some(v) = text::get_num::<u64>(&kv, "pingto")? { builder.with_ping_timeout(std::time::Duration::from_millis(v)); }
+    if let Some(v) = text::get_num::<u64>(&kv, "ctimeout")? { builder.with_connect_timeout(std::time::Duration::from_millis(v)); }
+    Ok(builder.build())
+}
+
+/// Prints the observable fields of `MqttClientOptions`.
+pub fn client_options_text(options: &crate::client::config::MqttClientOptions) -> String {
+    use crate::client::config::*;
+    let policy = match options.offline_queue_policy {
+        OfflineQueuePolicy::PreserveAll => "all",
+        OfflineQueuePolicy::PreserveAcknowledged => "acked",
+        OfflineQueuePolicy::PreserveQos1PlusPublishes => "qos1plus",
+        OfflineQueuePolicy::PreserveNothing => "nothing",
+    };
+    let drain = match options.post_reconnect_queue_drain_policy { None => "unset", Some(PostReconnectQueueDrainPolicy::None) => "none", Some(PostReconnectQueueDrainPolicy::OneAtATime) => "one" };
+    let retries = match options.max_interrupted_retries { None => "unset".to_string(), Some(v) => v.to_string() };
+    format!("v={} policy={} drain={} retries={} pingto={} ctimeout={}", if options.protocol_mode == ProtocolMode::Mqtt311 { 311 } else { 5 }, policy, drain, retries,
+        options.ping_timeout.as_millis(), options.connect_timeout.as_millis())
+}
+
 impl Session {
     /// Creates an empty session.
     pub fn new() -> Session {
